@@ -549,6 +549,16 @@ func (x *c07Run) decodeCustomFamily(c *jwt.Claims) {
 		func() any { return new(c07Inner) },
 		func() any { v := &c07T1{Strs: make([]string, 0, 4), Map: map[string]string{"k": "v"}}; return v },
 	}
+	// the catalogue of named types (c07types.go). Aux "grid" / "top" (the deterministic type grid) select
+	// the one family the case is about; every other case meets all of them.
+	switch aux := x.cs.Aux; {
+	case strings.HasPrefix(aux, "grid"):
+		targets = c07GridTargets()
+	case strings.HasPrefix(aux, "top"):
+		targets = c07TopTargets()
+	default:
+		targets = append(append(targets, c07GridTargets()...), c07TopTargets()...)
+	}
 	okCount := 0
 	for i, mk := range targets {
 		site := fmt.Sprintf("jwt.Claims.DecodeCustom(target %d)", i)
@@ -576,12 +586,18 @@ func (x *c07Run) decodeCustomFamily(c *jwt.Claims) {
 func (x *c07Run) runCustom() {
 	var raw map[string]any
 	dec := json.NewDecoder(bytes.NewReader(x.cs.Input))
-	dec.UseNumber()
+	// the parser hands DecodeCustom json.Number; a caller that fills Claims.Raw by hand has float64
+	float := strings.Contains(x.cs.Aux, "float64")
+	if !float {
+		dec.UseNumber()
+	}
 	if err := dec.Decode(&raw); err != nil {
 		// not an object: wrap whatever it is
 		var v any
 		dec2 := json.NewDecoder(bytes.NewReader(x.cs.Input))
-		dec2.UseNumber()
+		if !float {
+			dec2.UseNumber()
+		}
 		if err := dec2.Decode(&v); err != nil {
 			x.setOutcome("not-json")
 			return
